@@ -288,8 +288,14 @@ def oracle(ctx):
         theta = torch.zeros(nth, dtype=DT, requires_grad=True)
         ce = cluster_weights(spec, neig, lowest, g) if spec is not None else torch.randn(neig, dtype=DT, generator=g)
         C = herm(torch.randn(n, n, dtype=dtype, generator=g))
+        # documented degeneracy thresholds of the implicit backward: one of the two may be zero - the other one still detects exact
+        # degeneracies (round-4 seed C06/10: `or` of the two tests became `and`); a zero absolute threshold cannot see a
+        # degeneracy AT zero, so that family keeps the defaults
+        bck_thr = rng.choice([None, None, {"degen_atol": 0.0}, {"degen_rtol": 0.0}, {"degen_atol": 1e-9, "degen_rtol": 1e-7}])
+        if fam == "degenerate-at-zero" and bck_thr and bck_thr.get("degen_atol") == 0.0:
+            bck_thr = None
         info = {"fn": "symeig", "method": method, "n": n, "neig": neig, "M": useM, "kind": kind, "mode": "lowest" if lowest else "uppest",
-                "complex": cplx, "family": fam, "batch": list(batch), "generator_seed": g.initial_seed()}
+                "complex": cplx, "family": fam, "batch": list(batch), "generator_seed": g.initial_seed(), "bck_options": bck_thr}
         ctx.count(("symeig-grad", rep, method, n, neig, useM, kind, lowest, cplx, fam), nontrivial=neig < n or useM)
 
         def build(th):
@@ -302,6 +308,8 @@ def oracle(ctx):
             A, M = build(th)
             mk = (lambda t: xt.LinearOperator.m(t, is_hermitian=True)) if kind == "dense" else MFP
             opts = {"min_eps": 1e-10} if method == "davidson" else {}
+            if bck_thr:
+                opts["bck_options"] = dict(bck_thr)
             e, X = symeig(mk(A), neig, "lowest" if lowest else "uppest", mk(M) if useM else None, method=method, **opts)
             return invariant_loss(e, X, M, ce, C)
 
@@ -429,6 +437,65 @@ def oracle(ctx):
             if not torch.isfinite(outs[0]).all() or float((outs[0] - outs[1]).abs().max()) > 1e-4 * sc:
                 ctx.fail("oracle", "symeig-grad:user-degeneracy-thresholds", {"spectrum": spec.tolist(), "bck_options": bck, "generator_seed": g.initial_seed()},
                          {"impl": outs[0].tolist(), "reference": outs[1].tolist()}, "agree to 1e-4 (the pair is resolved with the caller's thresholds)")
+    # ---- a well-separated spectrum with a wide dynamic range: the relative threshold is relative to EACH eigenvalue (round-4 seed
+    #      C06/11: relative to the largest one, which flagged the small well-separated eigenvalues as degenerate) ----
+    for rep in range(ctx.n(2, 8)):
+        g = gen(rng)
+        spec = torch.tensor([1e-3, 2e-3, 1.0, 5e3], dtype=DT)
+        A0, _ = planted(g, 4, spec, (), DT, False)
+        Ad = herm(torch.randn(2, 4, 4, dtype=DT, generator=g)) * 1e-4
+        Cm = herm(torch.randn(4, 4, dtype=DT, generator=g))
+        for method, neig_ in (("custom_exacteig", 4), ("custom_exacteig", 2), ("exacteig", 4)):
+            outs = []
+            for which in ("impl", "ref"):
+                th = torch.zeros(2, dtype=DT, requires_grad=True)
+                Am = A0 + (th.reshape(2, 1, 1) * Ad).sum(0)
+                with warnings.catch_warnings():
+                    warnings.simplefilter("ignore")
+                    if which == "impl":
+                        e_, X_ = symeig(xt.LinearOperator.m(Am, is_hermitian=True), neig_, "lowest", method=method)
+                    else:
+                        e_, X_ = dense_pairs(Am, None, neig_, True)
+                    L_ = e_[:2].sum() * 1e3 + (Cm * (X_[:, :1] @ X_[:, :1].T)).sum() + 0.5 * (Cm * (X_[:, 1:2] @ X_[:, 1:2].T)).sum()
+                    outs.append(torch.autograd.grad(L_, th)[0])
+            ctx.count(("wide-range-spectrum", rep, method, neig_), nontrivial=True)
+            sc = 1 + float(outs[1].abs().max())
+            if not torch.isfinite(outs[0]).all() or float((outs[0] - outs[1]).abs().max()) > 1e-5 * sc:
+                ctx.fail("oracle", "symeig-grad:wide-range-spectrum:%s" % method, {"spectrum": spec.tolist(), "neig": neig_, "generator_seed": g.initial_seed()},
+                         {"impl": outs[0].tolist(), "reference": outs[1].tolist()}, "agree to 1e-5 (all eigenvalues are well separated relative to their own size)")
+    # ---- sums of several matrix-free operators of one class: each operand's tensor gets its gradient (round-4 seed C06/12) ----
+    class PS(xt.LinearOperator):
+        def __init__(self, w):
+            super().__init__(shape=w.shape, is_hermitian=True, dtype=w.dtype, device=w.device)
+            self.w = w
+
+        def _mv(self, x):
+            return torch.matmul(0.5 * (self.w + self.w.transpose(-2, -1)), x.unsqueeze(-1)).squeeze(-1)
+
+        def _getparamnames(self, prefix=""):
+            return [prefix + "w"]
+    for method in ("custom_exacteig", "davidson"):
+        g = gen(rng)
+        ws = [torch.randn(5, 5, dtype=DT, generator=g).requires_grad_() for _ in range(3)]
+        cw = torch.randn(2, dtype=DT, generator=g)
+        try:
+            with warnings.catch_warnings():
+                warnings.simplefilter("ignore")
+                e_, X_ = symeig((PS(ws[0]) + PS(ws[1])) + PS(ws[2]), 2, "lowest", method=method, **({"min_eps": 1e-10} if method == "davidson" else {}))
+                got = torch.autograd.grad((cw * e_).sum() + (X_[:, :1] @ X_[:, :1].T)[0, 1], ws, allow_unused=True)
+        except Exception as ex:
+            ctx.fail("oracle", "symeig-grad:nested-operands-of-one-class:exception", {"method": method}, repr(ex)[:200], "gradients")
+            continue
+        wr = [w.detach().clone().requires_grad_() for w in ws]
+        S_ = sum(0.5 * (w + w.T) for w in wr)
+        er, Xr = torch.linalg.eigh(S_)
+        ref = torch.autograd.grad((cw * er[:2]).sum() + (Xr[:, :1] @ Xr[:, :1].T)[0, 1], wr)
+        ctx.count(("nested-sum-names", method), nontrivial=True)
+        for i, (a_, r_) in enumerate(zip(got, ref)):
+            if a_ is None or not torch.allclose(a_, r_, rtol=1e-5, atol=1e-6):
+                ctx.fail("oracle", "symeig-grad:nested-operands-of-one-class:p%d" % (i + 1), {"expression": "(p1 + p2) + p3", "method": method},
+                         None if a_ is None else float((a_ - r_).abs().max()), "the gradient w.r.t. every operand's tensor")
+                break
     # ---- exactly diagonal operators, partial spectrum: the shifted systems are exactly singular and the exact solver retries
     #      with a small diagonal shift (seeded defect C06/5: the retry lost the eigenvalue shift) ----
     for kind in ("dense", "mf"):
